@@ -64,6 +64,14 @@ func c04Judge(w *fw.W, c *c04Case) bool {
 				w.Cover("ambiguous_reasons", exp.Ambiguous)
 				return true
 			}
+			if !c04OrderInsensitive(c.Program) {
+				// the model's own blind spot may hide an order dependence (e.g. a regex key it reads differently selects
+				// one value for the model and two for the engine, and a later link tests MATCHED_VAR): judge only
+				// rule sets that cannot express an order dependence at all
+				w.Count("ambiguous_skipped", 1)
+				w.Cover("ambiguous_reasons", exp.Ambiguous+" (rule set uses order-sensitive constructs)")
+				return true
+			}
 			// the model cannot predict the outcome (unpinned construct), but whatever the outcome is, it has to be
 			// the same in every repetition: the first run on a fresh WAF becomes the reference. Counters and
 			// captures the model could not follow are left out of the comparison.
@@ -138,6 +146,43 @@ func c04Judge(w *fw.W, c *c04Case) bool {
 		}
 		w.Violation(class, "repetition-differential+reference-model", c, exp, firstBad,
 			fmt.Sprintf("%d of %d repetitions agree with the reference outcome; divergent: %s", good, c.Reps, strings.Join(kinds, " | ")))
+	}
+	return true
+}
+
+// c04OrderInsensitive reports whether a rule set is syntactically unable to observe the order in which the values of
+// a collection are visited: no MATCHED_VAR / MATCHED_VAR_NAME anywhere (targets or macros), no captures, no macro
+// in an assignment.
+func c04OrderInsensitive(p *sl.Program) bool {
+	if p == nil {
+		return false
+	}
+	bad := func(s string) bool {
+		u := strings.ToUpper(s)
+		return strings.Contains(u, "MATCHED_VAR") || strings.Contains(u, "%{TX.0") || strings.Contains(u, "%{TX.1") || strings.Contains(u, "%{TX.2")
+	}
+	for _, it := range p.Items {
+		for lvl := it.Rule; lvl != nil; lvl = lvl.Chain {
+			if lvl.Capture {
+				return false
+			}
+			for _, t := range lvl.Targets {
+				if bad(t.Var) {
+					return false
+				}
+			}
+			if lvl.Op != nil && bad(lvl.Op.Arg) {
+				return false
+			}
+			if bad(lvl.Msg) || bad(lvl.LogData) {
+				return false
+			}
+			for _, sv := range lvl.Setvars {
+				if bad(sv.Key) || bad(sv.Val) || (sv.Kind == "=" && strings.Contains(sv.Val, "%{")) {
+					return false
+				}
+			}
+		}
 	}
 	return true
 }
